@@ -168,7 +168,8 @@ func runC15(o *opts) (*summary, error) {
 			}
 			emit(role, fmt.Sprintf("192.168.1.100:%d", p), "ports")
 		}
-		for _, p := range []string{"65536", "65537", "70000", "99999", "100000", "4294967296", "00080", "080", "", "-1", "+80", "6e4", " 80", "80 "} {
+		for _, p := range []string{"65536", "65537", "70000", "99999", "100000", "4294967296", "00080", "080", "", "-1", "+80", "6e4", " 80", "80 ",
+			"00010", "010", "08", "09999", "08080", "04660", "0060000", "060000", "00", "000", "0x1f90", "0X50", "0b101", "0o17", "6_0001", "8080.", "80:", "٨٠", "８０", "1e3", "0x"} {
 			emit(role, "192.168.1.100:"+p, "ports-odd")
 		}
 	}
